@@ -51,8 +51,18 @@ def sub_kernel(c, ctx):
     if ctx.translated:
         okm, mlog = c.coq_make(["Model/MirrorObs.vo"])
         if okm:
-            results, elog = mirrorlib.eval_cases(c, "c09_kernel", usable)
+            # c11sm: what the state machine is handed; it terminates the process on a view that is not newer and panics on
+            # a jump-ahead that is not ahead, so a stream the monitor rejects is an engine crash in waiting
+            results, elog = mirrorlib.eval_cases(c, "c09_kernel", usable, extra_import=mirrorlib.MON_IMPORT,
+                                                 per_case_exprs={"c11sm": mirrorlib.MON_EXPRS["c11sm"]})
             results = results or {}
+            for k in usable:
+                r = results.get(k["idx"])
+                if r and mirrorlib.mon_failed(r["mon"].get("c11sm", "None")):
+                    c.report("state-machine-would-terminate", "the real mirror handed the state machine a view stream it terminates or panics on "
+                             "(monitor c11sm: %s)" % r["mon"]["c11sm"][:40],
+                             {"batch_seed": k["batch_seed"], "batch_case": k["batch_idx"], "steps": [{"op": op[:300]} for op, _, _ in k["steps"][:60]]})
+                    break
     mp = [(k, r["corr"]) for k in usable for r in [results.get(k["idx"])] if r and r["corr"] and "MPanic" in r["corr"]]
     for k, corr in mp[:2]:
         c.report("mirror-model-panic", "the mirror model reaches a Panic site on a generated history: %s" % corr[:200],
